@@ -1,3 +1,2 @@
 import JominiModel.Props.C08
-open Jomini.Props.C08
-#print axioms C08_lexeme_ids_measured
+#print axioms Jomini.Props.C08.C08_lexeme_ids_measured
